@@ -83,6 +83,10 @@ type Target struct {
 	// Hook, if set, is called (without the lock) after a request was logged
 	// and before it is executed; it may block (to hold a worker inside a call).
 	Hook func(idx int, e LogEntry)
+	// HookFail (opt-in, C04 session 5; nil changes nothing): asked right after Hook returned, under the lock
+	// (must not block nor call the Target): a non-empty text is the error reply of THIS request - the decision to
+	// fail a request can then be taken while the request is held inside Hook.
+	HookFail func(idx int, e LogEntry) string
 
 	conns   map[int]*connState
 	nextID  int
@@ -122,6 +126,12 @@ type Target struct {
 	// XGroupKey (opt-in, C20): XGROUP <sub> <key> … is filed under its key (the
 	// second argument) instead of under the generic "first argument".
 	XGroupKey bool
+	// SockBuf (opt-in, sender session 5; false changes nothing): connections dialled while it is set get
+	// an unbounded RECEIVE buffer like a kernel socket buffer - a pump goroutine takes everything the
+	// client writes at once, the request loop reads from the buffer. A client that pipelines can then be
+	// any number of batches ahead of a target that is slow to execute (with a bare net.Pipe its next
+	// write blocks until the target has finished the previous batch).
+	SockBuf bool
 }
 
 func NewTarget() *Target {
@@ -802,6 +812,11 @@ func (t *Target) request(connID int, args [][]byte) (reply, bool) {
 		t.mu.Unlock()
 		hook(idx, e)
 		t.mu.Lock()
+		if t.HookFail != nil {
+			if m := t.HookFail(idx, e); m != "" {
+				fail = m
+			}
+		}
 	}
 	r := t.handle(c, args, fail)
 	lose := t.LoseReplyAt[idx]
@@ -894,9 +909,61 @@ func (t *Target) DialID() (net.Conn, int) {
 	return cli, id
 }
 
+// sockBuf is the receive buffer of a SockBuf connection: fill() pumps the connection into it, Read
+// hands the bytes out in order (blocking on a sync.Cond, which testing/synctest treats as durable).
+type sockBuf struct {
+	mu   sync.Mutex
+	cond *sync.Cond
+	buf  []byte
+	err  error
+}
+
+func newSockBuf(c net.Conn) *sockBuf {
+	b := &sockBuf{}
+	b.cond = sync.NewCond(&b.mu)
+	go func() {
+		tmp := make([]byte, 1<<16)
+		for {
+			n, err := c.Read(tmp)
+			b.mu.Lock()
+			b.buf = append(b.buf, tmp[:n]...)
+			if err != nil {
+				b.err = err
+			}
+			b.cond.Broadcast()
+			b.mu.Unlock()
+			if err != nil {
+				return
+			}
+		}
+	}()
+	return b
+}
+
+func (b *sockBuf) Read(p []byte) (int, error) {
+	b.mu.Lock()
+	defer b.mu.Unlock()
+	for len(b.buf) == 0 && b.err == nil {
+		b.cond.Wait()
+	}
+	if len(b.buf) == 0 {
+		return 0, b.err
+	}
+	n := copy(p, b.buf)
+	b.buf = b.buf[n:]
+	return n, nil
+}
+
 func (t *Target) serve(id int, c net.Conn) {
 	defer c.Close()
-	r := bufio.NewReaderSize(c, 1<<16)
+	var src io.Reader = c
+	t.mu.Lock()
+	sb := t.SockBuf
+	t.mu.Unlock()
+	if sb {
+		src = newSockBuf(c)
+	}
+	r := bufio.NewReaderSize(src, 1<<16)
 	// replies go through an unbounded queue drained by a writer goroutine, so
 	// that a client that pipelines more than the pipe can hold never deadlocks
 	// (a real socket has kernel buffers; net.Pipe has none).
